@@ -107,3 +107,12 @@ Proof.
     + intros s (q' & Hq' & E' & ->). apply Lo. exists q'. split; [exact Hq'|]. split; [apply Z0; assumption | reflexivity].
   - intros NB. apply S3. intros q Hq E. apply (NB q Hq). apply Z0; assumption.
 Qed.
+
+(* C10: the envelope stack of _distance.cpp (arrays v[0..n-1], z[0..n]) is never over-full and only holds positions of the line:
+   after the first pass it has at most n entries, every stored vertex is an index of the line *)
+Theorem envelope_stack_in_bounds f : (1 <= length f)%nat ->
+  Z.of_nat (length (build_hull f)) <= Zlen f /\ forall e, In e (build_hull f) -> 0 <= fst e < Zlen f.
+Proof.
+  intros Hn. destruct (build_hull_spec f Hn) as (_ & V & _ & L). cbv zeta in *. unfold n in *. split; [exact L|].
+  intros e He. apply V. apply in_map. exact He.
+Qed.
